@@ -39,7 +39,10 @@ class C19(Prop):
     design_ref = "DESIGN.md §6 C19"
     # translator tie (DESIGN II.7): src/scheduler.rs itself — TaskHandle's two Subscription impls and the poll functions of
     # Remote / OnceTask / FutureTask / RepeatTask, regenerated from the compiler-expanded source on every run
-    tie_modules = {"RxModel.GenTie.Scheduler": []}
+    tie_modules = {"RxModel.GenTie.Scheduler": [],
+                   # what the sources and operators hand to the scheduler (task kind, delay, period) and keep of it (the handle)
+                   "RxModel.GenTie.TimeSources": [], "RxModel.GenTie.TimeSourcesModel": [], "RxModel.GenTie.TimeOpsModel": [],
+                   "RxModel.GenTie.DelaySubscription": []}
     rule = ("one-shot tasks (timer, delay, delay_subscription, subscribe_on, debounce/throttle windows), subscribing "
             "tasks and repeating tasks (interval, buffer_with_time) with delays from {0,1,2,5,10} on the virtual clock; "
             "cancellation (unsubscribe) injected at every phase: before the first poll, while pending on the timer, "
